@@ -62,6 +62,7 @@ type Frame struct {
 	inlTag     string // obligation-name prefix for inlined frames
 	discard    bool   // results discarded (deferred call)
 	afterDefers bool
+	pendingRecover bool
 }
 
 type State struct {
@@ -80,6 +81,9 @@ type State struct {
 	dead     bool
 	steps    int
 	clauseProps []string
+	known    map[string]bool
+	panicking bool
+	pendingForks []*State
 }
 
 type counter struct{ n int }
@@ -107,6 +111,13 @@ func (st *State) assume(t string) {
 	if t == "true" {
 		return
 	}
+	if st.known == nil {
+		st.known = map[string]bool{}
+	}
+	if st.known[t] {
+		return
+	}
+	st.known[t] = true
 	st.asserts = st.asserts.push(t)
 }
 
@@ -155,6 +166,11 @@ func (st *State) clone() *State {
 		n.cellVals[k] = v
 	}
 	n.modsets = append([]*modSet(nil), st.modsets...)
+	n.pendingForks = nil
+	n.known = make(map[string]bool, len(st.known))
+	for k := range st.known {
+		n.known[k] = true
+	}
 	return &n
 }
 
@@ -164,6 +180,9 @@ func (st *State) top() *Frame { return st.frames[len(st.frames)-1] }
 // obligations
 
 func (st *State) oblige(kind, name, goal, note string) {
+	if goal != "true" && st.known[goal] {
+		goal = "true"
+	}
 	if goal == "true" {
 		// discharged by construction; still counted
 		st.res.VCs = append(st.res.VCs, &VC{Name: name, Func: st.res.Key, Kind: kind, Goal: "true", Note: note, Result: "unsat", Solver: "trivial"})
@@ -203,6 +222,13 @@ func (st *State) pos(ins ssa.Instruction) string {
 }
 
 func (st *State) panicOb(ins ssa.Instruction, kind string, goal string, what string) {
+	if other, rec := st.maybePanic(goal); rec {
+		if other != nil {
+			st.pendingForks = append(st.pendingForks, other)
+		}
+		st.assume(goal)
+		return
+	}
 	f := st.top()
 	name := "panic:" + st.eng.ordinal(f.fn, ins, kind)
 	st.oblige("panic", name, goal, what+" at "+st.pos(ins))
@@ -300,6 +326,11 @@ func (st *State) assumeWF(v Value) {
 		return
 	}
 	st.assume(st.eng.te.WF(v.T, v.Term, 0))
+	if len(st.eng.cs.TypeInvs) > 0 {
+		if _, isPtr := v.T.Underlying().(*types.Pointer); !isPtr {
+			st.assume(st.typeInvTerm(v, st.heap))
+		}
+	}
 	if v.S == SRef {
 		st.assume(st.validRef(v.Term))
 	}
